@@ -2,7 +2,8 @@
 C09 — read → convert → write yields a valid target file with the source's timeline.
 
 FULL STATEMENT (the property; evaluated on every generated case by the harness through `c09.abs` / `c09.close`; proved as
-one theorem for the pair osu → Quaver: `osu_to_qua_end_to_end` at the end of this file; for the other pairs NOT
+one theorem for the pairs osu → Quaver and Quaver → osu: `osu_to_qua_end_to_end`, `qua_to_osu_end_to_end` at the end of this
+file; for the other 14 pairs NOT
 proved as one theorem):  for every source file `t` of format A inside the domain of A's reader property, every legal
 target B and key count B supports,
     `CloseTo eps (res B) (gridExact a) shift a (abs_B (denote_B (write_B (convert_AB (read_A t)))))`   with `a = abs_A (denote_A t)`,
@@ -37,6 +38,8 @@ the parts' theorems; they are stated over the parts' own model types and are not
 import Reamber.Lemmas.Pipeline
 import Reamber.Lemmas.PipelineConv
 import Reamber.Lemmas.PipelineOsuQua
+import Reamber.Lemmas.PipelineQuaOsu
+import Reamber.Props.C01
 import Reamber.Lemmas.OsuDialect
 import Reamber.Generated.SMTables
 import Reamber.Generated.PipelineTables
@@ -388,5 +391,72 @@ theorem osu_to_qua_end_to_end (s : Osu.Skeleton) (hwf : s.WF) (lines : List Osu.
       rw [this]
     rw [hb]
     exact ⟨_, _, List.Perm.refl _, List.Perm.refl _, zipped_refl _ (closeBpm_ms_refl false (ofOsu c0)) _⟩
+
+/-! ## a second pair end to end: Quaver → osu, document to written text -/
+
+def quaToOsu : Convert.Conv := Convert.conv! "QuaToOsu.convert"
+
+theorem quaToOsu_entry : quaToOsu ∈ Generated.converters ∧ quaToOsu.name = "QuaToOsu.convert" ∧
+    Convert.staticOk Convert.tables quaToOsu = true ∧ quaToOsu.shiftParam = none ∧ quaToOsu.shape = .single := by
+  decide +kernel
+
+/-- the hypotheses of C01 `denote_writeText` on the chart that is written (columns inside the key count 1..256, file
+names without separators, non-zero tempos / scroll velocities that the float renderer `R` reads back exactly,
+well-formed metadata, no line break rendered in the header, background name without `"` and `,`) -/
+structure OsuWritable (R : Osu.Render) (c : Osu.Chart) : Prop where
+  hk : 0 < Osu.pyTrunc c.md.circleSize
+  hk' : Osu.pyTrunc c.md.circleSize ≤ 256
+  hhits : ∀ h ∈ c.hits, Osu.ObjOk2 (Osu.pyTrunc c.md.circleSize) (.hit h)
+  hholds : ∀ h ∈ c.holds, Osu.ObjOk2 (Osu.pyTrunc c.md.circleSize) (.hold h)
+  hb : ∀ b ∈ c.bpms, Osu.BpmOk2 R b
+  hs : ∀ b ∈ c.svs, Osu.SvOk2 R b
+  hm : Osu.MetaOk R c.md
+  hnl : ∀ tl ∈ Osu.writeMeta c.md, ∀ t ∈ tl, '\n' ∉ R.tok t
+  hbq : '"' ∉ c.md.backgroundFileName
+  hbc : ',' ∉ c.md.backgroundFileName
+
+/-- **Quaver → osu, end to end** (parsed document to written text; reader C06, converter C08, writer C01 chained):
+let `d` be a Quaver document whose objects declare numeric times, an integer lane and their key sounds, and that the
+by-the-book denotation reads as the chart `c0`.  Then
+1. the reader as written returns exactly `c0` (C06 `qua_read_defaults`);
+2. whenever the converter model's `QuaToOsu.convert` succeeds on the list frames of `c0` (`embQua c0`), it returns one
+   chart `t`, and
+3. whenever the chart held by `t`'s frames (`osuOfT t md svs`: any metadata `md`, any scroll velocities) satisfies the
+   hypotheses of C01's writer theorem (`OsuWritable`), the written text `"\n".join(write())` has a by-the-book
+   denotation `c'` with `CloseTo 0 ms false 0 (ofQua c0) (ofOsu c')`: hits and holds of the SOURCE DOCUMENT pair off with
+   those of the WRITTEN TEXT (same column, head and tail less than 1 ms away), and the tempo timelines are equal (osu
+   timing points keep fractional times: no hypothesis on the tempo points is needed) — no float slack.
+Hypotheses that remain (named): success of the converter model; `OsuWritable` (in particular every column inside the
+written key count — the key count comes from `QuaMapMode.get_keys(qua.mode)`, opaque to the converter table:
+`osu_circle_size_rules`, `qua_mode_roundtrip`); the float renderer `R` is a parameter (Python `repr`).  Modelling glue by
+definition: `embQua`, `osuOfT` (both proved to commute with the abstraction: `ofSrcMap_embQua`, `ofOsu_osuOfT`). -/
+theorem qua_to_osu_end_to_end (d : Qua.Doc) (hdecl : Qua.Spec.objsDeclared d = true) (c0 : Qua.Chart)
+    (hden : Qua.Spec.denote d = .ok c0) (k : Int) (out : Convert.Out)
+    (hconv : Convert.convert Convert.tables quaToOsu ⟨[], [embQua c0]⟩ k = .ok out)
+    (R : Osu.Render) (md : Osu.Meta) (svs : List Osu.Sv) :
+    Qua.read d = .ok c0 ∧
+    ∃ t, out = ⟨false, [⟨[], [t]⟩]⟩ ∧
+      (OsuWritable R (osuOfT t md svs) →
+        ∃ c', Osu.denoteText (Osu.writeText R (osuOfT t md svs)) = .ok c' ∧
+          CloseTo 0 .ms false 0 (ofQua c0) (ofOsu c')) := by
+  obtain ⟨_, _, hst, hns, hshape⟩ := quaToOsu_entry
+  refine ⟨by rw [Qua.qua_read_defaults d hdecl]; exact hden, ?_⟩
+  obtain ⟨m, t, hmaps, hone, hout⟩ := convert_single_inv _ _ _ _ _ hshape hconv
+  have hmeq : m = embQua c0 := by
+    simp only [List.cons.injEq, and_true] at hmaps
+    exact hmaps.symm
+  subst hmeq
+  have habs : ofTChart t = ofQua c0 := by
+    rw [convOne_abstract_eq _ _ _ _ _ _ hst hns (srcMapOk_embQua c0) hone, ofSrcMap_embQua]
+  refine ⟨t, hout, ?_⟩
+  intro hw
+  have hq : ofOsu (osuOfT t md svs) = ofQua c0 := by rw [ofOsu_osuOfT, habs]
+  have hdw := Osu.denote_writeText R (osuOfT t md svs) hw.hk hw.hk' hw.hhits hw.hholds hw.hb hw.hs hw.hm hw.hnl hw.hbq hw.hbc
+  obtain ⟨h1, h2, h3⟩ := quantize_osu_close R.uni (osuOfT t md svs) (ofQua c0)
+  refine ⟨_, hdw, ?_, ?_, ?_⟩
+  · exact hq ▸ h1
+  · exact hq ▸ h2
+  · rw [h3, hq]
+    exact ⟨_, _, List.Perm.refl _, List.Perm.refl _, zipped_refl _ (closeBpm_ms_refl false (ofQua c0)) _⟩
 
 end Reamber.Pipeline
